@@ -12,7 +12,7 @@ from .. import core, phymon
 
 ID = "C14"
 THEOREMS = ["C14_wrong_mode_refused_without_commanding", "C14_sx126x_every_history", "C14_sx126x_failed_operation", "C14_sx127x_every_history",
-            "C14_sx127x_failed_operation", "C14_initial_state", "C14_sx126x_history_example", "C14_sx127x_lora_mode_refuted"]
+            "C14_sx127x_failed_operation", "C14_adapter_sx126x", "C14_adapter_sx127x", "C14_initial_state", "C14_sx126x_history_example", "C14_sx127x_lora_mode_refuted"]
 
 F = [868100000, 433050000, 915000000]
 CHIPS = [("sx1262", "2", 1), ("sx1261", "-", 0), ("stm32wl_hp", "-", 1), ("sx1276", "-", 0), ("sx1272", "2", 0)]
